@@ -90,6 +90,8 @@ func seqAlphabet(era drive.Era) []seqEvent {
 		ev = append(ev, seqEvent{name: "Pz", rates: R1(), submit: []seqTx{
 			{name: "A:1usd>PEG", signer: KA, txs: []kit.Tx{kit.Conversion(A, "pUSD", 1, "PEG")}},
 			{name: "A:fct>PEG", signer: KA, txs: []kit.Tx{kit.Conversion(A, "pFCT", 3000e8, "PEG")}}}})
+		// a PEG request by B, who can afford it only after a transfer from A: rejected whole otherwise, no part in the bank
+		ev = append(ev, seqEvent{name: "Pb", rates: R1(), submit: one("B:usd>PEG", KB, kit.Conversion(B, "pUSD", x/2, "PEG"))})
 	}
 	if era.V202 != drive.Never {
 		// the staking records put pEUR outside the oracle records' tolerance band: from 2.0.2 on the block is rated, with
@@ -509,7 +511,7 @@ func seqPlanFor(thorough bool, prop string) []seqEra {
 
 var seqProps = []string{"C03", "C04", "C06", "C07", "C11", "C13", "C17"}
 
-const seqRule = " PLUS the sequence family: every sequence of block events (alphabet of 23, 25 from 2.0.2 on: ungraded / graded at two rate vectors, transfers A>B and B>A, a transfer naming one recipient twice and the sender itself, a transfer with zero-amount outputs around the funded ones, conversions submitted in graded and ungraded blocks, a two-entry block, byte-identical copies of the previous entry, a PEG request, a chained batch in both orders, conversions into pFCT and into a small asset, a conversion whose output the same batch spends, a batch of two conversions from different assets, a block with too few price records, an FCT burn with a pFCT conversion, a transfer whose outputs equal its input only modulo 2^64; from 2.0.2 on a block whose staking records put pEUR outside the tolerance band so that it is recorded as 0, with and without a pEUR conversion submitted in it; in the eras with a PEG bank a one-unit PEG request next to one of ten banks) up to the stated depth from a funded state in several eras; after EVERY block the balances of the three actors and the miner and the status of every submitted entry are compared with a reference ledger kept in maps; this property reports the discrepancies of its class"
+const seqRule = " PLUS the sequence family: every sequence of block events (alphabet of 23, 25 from 2.0.2 on: ungraded / graded at two rate vectors, transfers A>B and B>A, a transfer naming one recipient twice and the sender itself, a transfer with zero-amount outputs around the funded ones, conversions submitted in graded and ungraded blocks, a two-entry block, byte-identical copies of the previous entry, a PEG request, a chained batch in both orders, conversions into pFCT and into a small asset, a conversion whose output the same batch spends, a batch of two conversions from different assets, a block with too few price records, an FCT burn with a pFCT conversion, a transfer whose outputs equal its input only modulo 2^64; from 2.0.2 on a block whose staking records put pEUR outside the tolerance band so that it is recorded as 0, with and without a pEUR conversion submitted in it; in the eras with a PEG bank a one-unit PEG request next to one of ten banks, and a PEG request by an address that may not be able to afford it) up to the stated depth from a funded state in several eras; after EVERY block the balances of the three actors and the miner and the status of every submitted entry are compared with a reference ledger kept in maps; this property reports the discrepancies of its class"
 
 // files of a package are initialised in file-name order, so the drivers are registered by now
 func init() {
